@@ -342,14 +342,19 @@ impl Operator {
                 }
             }
             Operator::Contains => {
-                if let (Some(l), Some(r)) = (left.as_string_ref(), right.as_string_ref()) {
+                if let Value::Array(arr) = left {
+                    // `Order.items contains "laptop"`: membership in an array
+                    arr.contains(right)
+                } else if let (Some(l), Some(r)) = (left.as_string_ref(), right.as_string_ref()) {
                     l.contains(r)
                 } else {
                     false
                 }
             }
             Operator::NotContains => {
-                if let (Some(l), Some(r)) = (left.as_string_ref(), right.as_string_ref()) {
+                if let Value::Array(arr) = left {
+                    !arr.contains(right)
+                } else if let (Some(l), Some(r)) = (left.as_string_ref(), right.as_string_ref()) {
                     !l.contains(r)
                 } else {
                     false
